@@ -37,11 +37,14 @@ def _split_format(lit):
             if j < 0:
                 return None
             inner = s[i + 1:j]
-            if inner != "" and not re.match(r"^[A-Za-z_][A-Za-z0-9_]*$", inner):
-                return None          # `{:04}`, `{:?}`, `{0}`, `{x:>5}` ...: not handled
+            kind = "arg"
+            if inner.endswith(":?") and (inner == ":?" or re.match(r"^[A-Za-z_][A-Za-z0-9_]*$", inner[:-2])):
+                kind, inner = "dbg", inner[:-2]      # `{:?}` / `{name:?}`: Debug::fmt instead of Display::fmt
+            elif inner != "" and not re.match(r"^[A-Za-z_][A-Za-z0-9_]*$", inner):
+                return None          # `{:04}`, `{:#?}`, `{0}`, `{x:>5}` ...: not handled
             if cur:
                 ops.append(("lit", cur)); cur = ""
-            ops.append(("arg", inner or None)); i = j + 1
+            ops.append((kind, inner or None)); i = j + 1
         elif c == "}":
             if s.startswith("}}", i):
                 cur += "}"; i += 2; continue
@@ -53,7 +56,8 @@ def _split_format(lit):
     return ops
 
 
-_PLACE = re.compile(r"^[&*\s]*[A-Za-z_][A-Za-z0-9_]*(\s*\.\s*[A-Za-z0-9_]+)*$")
+# place expressions, optionally followed by argument-less method calls (`name.as_ref()`): evaluated once, in argument order
+_PLACE = re.compile(r"^[&*\s]*[A-Za-z_][A-Za-z0-9_]*(\s*\.\s*[A-Za-z0-9_]+(\s*\(\s*\))?)*$")
 
 
 def make_rule(ex):
@@ -69,7 +73,9 @@ def make_rule(ex):
           statement `write!(..)?`  ->  `OP1?; OP2?; ..; OPn?`   (each `?` returns the first error unchanged: `From<fmt::Error> for fmt::Error`)
           any other position       ->  `(match OP1 { Err(vx_e) => Err(vx_e), Ok(_) => { (match OP2 { .. Ok(_) => { OPn } }) } })`, one op: `OPn`,
                                         no op: `Ok::<(), std::fmt::Error>(())`
-        Rejected, i.e. left unrewritten (the unit becomes undecided): format specs / positions (`{:04}`, `{:?}`, `{0}`), named arguments
+        A `{:?}` / `{name:?}` placeholder becomes `ARG.vx_debug_fmt(F)` (std: `Debug::fmt(&ARG, F)`; the unit's shim trait `Debug` gives the
+        trusted leaf contracts, e.g. an uninterpreted `debug_text` for str); positional arguments may end in argument-less method calls.
+        Rejected, i.e. left unrewritten (the unit becomes undecided): other format specs / positions (`{:04}`, `{:#?}`, `{0}`), named arguments
         `n = e`, raw strings, literals with a line break, other argument expressions, argument count mismatch.
         Assumption shared with the trusted leaf printers: F carries default formatting options, as every Formatter made by `write_fmt` does."""
         while True:
@@ -105,7 +111,7 @@ def make_rule(ex):
                 pos = [src[code[a].start:code[b - 1].end] for a, b in args[2:]]
                 if any(not _PLACE.match(p) for p in pos):
                     continue
-                if sum(1 for o in ops if o == ("arg", None)) != len(pos):
+                if sum(1 for o in ops if o[0] in ("arg", "dbg") and o[1] is None) != len(pos):
                     continue
                 calls, pi = [], 0
                 for kind, v in ops:
@@ -115,7 +121,8 @@ def make_rule(ex):
                         a = v
                         if a is None:
                             a = pos[pi]; pi += 1
-                        calls.append(("%s.fmt(%s)" if re.match(r"^[A-Za-z_]\w*$", a) else "(%s).fmt(%s)") % (a, F))
+                        m = "fmt" if kind == "arg" else "vx_debug_fmt"
+                        calls.append(("%s." + m + "(%s)" if re.match(r"^[A-Za-z_]\w*$", a) else "(%s)." + m + "(%s)") % (a, F))
                 end = code[e].end
                 if code[e + 1].text == "?" and code[e + 2].text == ";" and calls and \
                         (i == 0 or code[i - 1].text in ("{", "}", ";")):
